@@ -68,7 +68,7 @@ PROPS = {
     "C09": {"seed": 9, "areas": [("syncloop", 144), ("crash", 40), ("receiver", 120)], "thorough_mult": 6,
             "assumptions": ["known finding F8 (C09_refuted)", "Store failures below the retry budget (StorageRetryCount) are retried; exhausting it makes the loop return (the process restarts and uploads at start-up)"],
             "trusted_base": [LMDB_TRUST, "Instance/Ids.v + Instance/SyncLoop.v as for C03"]},
-    "C01": {"seed": 1, "areas": [("fleet", 160), ("merge", 300), ("syncloop", 60), ("shadow", 200), ("retention", 60)], "thorough_mult": 6,
+    "C01": {"seed": 1, "areas": [("fleet", 160), ("merge", 300), ("syncloop", 60), ("shadow", 200), ("retention", 60), ("crash", 30)], "thorough_mult": 6,
             "assumptions": ["tomb sweeper disabled (cutoff 0), as the property states",
                             "applications are monotone per key per instance (a write is at least as new as what the instance holds); in shadow mode instances share one monotone clock (documented operating assumption)",
                             "quiescent = every instance uploaded after its last write and merged such a snapshot of every instance; C09 supplies the first half on the real loop",
